@@ -120,7 +120,7 @@ func runApp(n, failAt, idx int) (map[string]any, error) {
 	if startErr != nil {
 		errText = startErr.Error()
 	}
-	return map[string]any{"id": fmt.Sprintf("app:%d:n%d:fail%d", idx, n, failAt), "n": n, "failAt": failAt, "startErr": startErr != nil, "startErrText": errText,
+	return map[string]any{"id": fmt.Sprintf("app:%d:n%d:fail%d", idx, n, failAt), "kind": "life", "n": n, "failAt": failAt, "startErr": startErr != nil, "startErrText": errText,
 		"afterStart": afterStart, "afterStop": afterStop, "loopsLeft": left}, nil
 }
 
@@ -137,6 +137,16 @@ func init() {
 		for n := 1; n <= 3; n++ {
 			for failAt := 0; failAt <= n; failAt++ {
 				tr, err := runApp(n, failAt, idx)
+				if err != nil {
+					return err
+				}
+				lw.Write(tr)
+				idx++
+			}
+		}
+		for _, kind := range []string{"timeout", "transient", "closed"} {
+			for _, run := range []func(string, int) (map[string]any, error){runAcceptTCP, runAcceptUDP} {
+				tr, err := run(kind, idx)
 				if err != nil {
 					return err
 				}
